@@ -263,9 +263,48 @@ pub fn run_property<P: Property>(p: &P, opts: &RunOpts) -> RunSummary {
     }
     let stop = AtomicBool::new(false);
     let tier = opts.tier;
+    // memory watchdog: a generated script can make one interpreter run grow its values
+    // exponentially (known finding K10 of C01).  The history checks run the interpreter in
+    // process, so such a case would take the whole machine down: when the resident set passes
+    // the limit the cases in flight are saved and the run ends as inconclusive (exit 2).
+    let in_flight: Vec<Mutex<Option<Value>>> = (0..shards).map(|_| Mutex::new(None)).collect();
+    let finished = AtomicBool::new(false);
+    let remaining = std::sync::atomic::AtomicUsize::new(shards);
+    let rss_limit_mb: u64 = std::env::var("VERIF_RSS_LIMIT_MB").ok().and_then(|s| s.parse().ok()).unwrap_or(12_000);
     std::thread::scope(|scope| {
+        {
+            let in_flight = &in_flight;
+            let finished = &finished;
+            let id = p.id();
+            scope.spawn(move || {
+                while !finished.load(Ordering::Relaxed) {
+                    std::thread::sleep(std::time::Duration::from_millis(200));
+                    let rss_mb = std::fs::read_to_string("/proc/self/statm")
+                        .ok()
+                        .and_then(|t| t.split_whitespace().nth(1).and_then(|x| x.parse::<u64>().ok()))
+                        .map(|pages| pages * 4096 / (1 << 20))
+                        .unwrap_or(0);
+                    if rss_mb > rss_limit_mb {
+                        let dir = format!("{}/replays/{}/new", out_root(), id);
+                        let _ = std::fs::create_dir_all(&dir);
+                        for (k, slot) in in_flight.iter().enumerate() {
+                            if let Ok(g) = slot.try_lock() {
+                                if let Some(c) = &*g {
+                                    let body = json!({"property": id, "signature": "heavy", "message": "in flight when the memory watchdog fired", "case": c});
+                                    let _ = std::fs::write(format!("{}/heavy-shard{}.json", dir, k), serde_json::to_string_pretty(&body).unwrap_or_default());
+                                }
+                            }
+                        }
+                        println!("INCONCLUSIVE property={} the harness process passed {} MiB resident: a generated case makes one interpreter run grow without bound (cases in flight saved to {}/heavy-shard*.json)", id, rss_limit_mb, dir);
+                        std::process::exit(2);
+                    }
+                }
+            });
+        }
         for shard in 0..shards {
             let agg = &agg;
+            let in_flight = &in_flight;
+            let (finished, remaining) = (&finished, &remaining);
             let known = &known;
             let stop = &stop;
             let seed = opts.seed;
@@ -293,6 +332,9 @@ pub fn run_property<P: Property>(p: &P, opts: &RunOpts) -> RunSummary {
                     let res = runner.run(&strat, |case| {
                         if stop.load(Ordering::Relaxed) && !failed.get() {
                             return Ok(());
+                        }
+                        if let Ok(mut g) = in_flight[shard].lock() {
+                            *g = serde_json::to_value(&case).ok();
                         }
                         let r = match std::panic::catch_unwind(std::panic::AssertUnwindSafe(|| p.check(&case, tier))) {
                             Ok(r) => r,
@@ -405,6 +447,10 @@ pub fn run_property<P: Property>(p: &P, opts: &RunOpts) -> RunSummary {
                         *a.known_hits.entry(k).or_insert(0) += v;
                     }
                     a.violations.extend(local.violations);
+                    drop(a);
+                    if remaining.fetch_sub(1, Ordering::SeqCst) == 1 {
+                        finished.store(true, Ordering::SeqCst);
+                    }
                 })
                 .expect("spawn shard");
         }
